@@ -26,7 +26,7 @@ def interleave_split(x):
 
 
 def internal_words(layout, xs):
-    if layout == "KL32":
+    if layout in ("KL32", "KL32BE"):
         out = []
         for x in xs:
             e, o = interleave_split(x)
@@ -40,7 +40,7 @@ def mem_bytes(layout, xs):
     out = []
     for v in ws:
         bs = [(v >> (8 * k)) & 255 for k in range(w // 8)]
-        out += bs[::-1] if layout == "KL8" else bs
+        out += bs[::-1] if layout in ("KL8", "KL32BE") else bs
     return out
 
 
@@ -104,9 +104,20 @@ def asm_x86_runs(repo, name):
     return "KL64", one
 
 
+# C18: further assembly front ends register themselves here: name -> provider(repo, name) -> (layout, one)
+ASM_PROVIDERS = {}
+for _mod in ("asm_arm", "asm_i386", "asm_m68k", "asm_riscv", "asm_xtensa"):
+    try:
+        ASM_PROVIDERS.update(__import__(_mod).PROVIDERS)
+    except ImportError:
+        pass
+
+
 def run_backend(repo, name):
     if name == "x86_64":
         layout, one = asm_x86_runs(repo, name)
+    elif name in ASM_PROVIDERS:
+        layout, one = ASM_PROVIDERS[name](repo, name)
     else:
         layout, one = llvm_runs(repo, name)
     rng = random.Random(1)
@@ -219,7 +230,8 @@ if __name__ == "__main__":
     repo = sys.argv[1] if len(sys.argv) > 1 else "/repo"
     gen = os.path.join(os.path.dirname(os.path.dirname(os.path.abspath(__file__))), "coq", "Gen")
     os.makedirs(gen, exist_ok=True)
-    for name in list(BACKENDS) + ["x86_64"]:
+    only = sys.argv[2:]
+    for name in [n for n in list(BACKENDS) + ["x86_64"] + list(ASM_PROVIDERS) if not only or n in only]:
         try:
             layout, segtab, chains, errors = run_backend(repo, name)
         except Stuck as ex:
